@@ -25,7 +25,7 @@ def cases(draw, tier):
 
 
 def prep(inputs):
-    return {k: (v.clone().requires_grad_() if k in FLOAT_INPUTS else v) for k, v in inputs.items()}
+    return {k: (v.clone().requires_grad_() if k in FLOAT_INPUTS else v.clone()) for k, v in inputs.items()}
 
 
 def grads(y, tensors):
@@ -141,19 +141,19 @@ def run(c) -> CaseResult:
         diff = [fl[k] for k in FLOAT_INPUTS if k in fl] + list(P.values())
         g = grads(y, diff)
     except Exception as e:  # noqa: BLE001
-        res.fail(exc_bucket(f"C16.raises[{ftag}]", e).replace("outside-library", "via-dynamo")[:300], f"{type(e).__name__}: {str(e)[:300]}\n{m._verif_source}")
+        res.fail(exc_bucket("C16.raises", e).replace("outside-library", "via-dynamo")[:300], f"{type(e).__name__}: {str(e)[:300]}\n{m._verif_source}")
         return res
     # ---- (2) same function as the hand conversion (outputs and all gradients)
     fr = prep(inputs)
     yr = dsl.evaluate(prog, P, fr, dsl.Unit())
     gr = grads(yr, [fr[k] for k in FLOAT_INPUTS if k in fr] + list(P.values()))
     if not close(y.detach(), yr.detach()):
-        res.fail(f"C16.value[{ftag}]", f"unit_scale(module) returned {y.item():.7g}, the User-Guide hand conversion gives {yr.item():.7g}\n{m._verif_source}")
+        res.fail("C16.value", f"[{ftag}] unit_scale(module) returned {y.item():.7g}, the User-Guide hand conversion gives {yr.item():.7g}\n{m._verif_source}")
     else:
         names = [k for k in FLOAT_INPUTS if k in fl] + list(P.keys())
         for name, a, b in zip(names, g, gr):
             if not close(a, b):
-                res.fail(f"C16.grad[{ftag}]", f"gradient wrt {name} differs from the hand conversion\n{m._verif_source}")
+                res.fail("C16.grad", f"[{ftag}] gradient wrt {name} differs from the hand conversion\n{m._verif_source}")
                 break
     # ---- (3) the original is untouched; (4) weights of Linear/Embedding modules re-initialised, biases zero
     for k, v in m.state_dict().items():
@@ -187,11 +187,11 @@ def run(c) -> CaseResult:
             if exp != got:
                 missing = dict(exp - got)
                 extra = dict(got - exp)
-                res.fail(f"C16.graph[{ftag}]", f"rewritten graph nodes differ from the recipe: missing {missing}, unexpected {extra}\n{m._verif_source}")
+                res.fail("C16.graph", f"[{ftag}] rewritten graph nodes differ from the recipe: missing {missing}, unexpected {extra}\n{m._verif_source}")
         else:
             res.labels.append(f"graphs-captured={len(captured)}")
     except Exception as e:  # noqa: BLE001
-        res.fail(exc_bucket(f"C16.graph.raises[{ftag}]", e)[:300], f"{type(e).__name__}: {str(e)[:200]}")
+        res.fail(exc_bucket("C16.graph.raises", e)[:300], f"{type(e).__name__}: {str(e)[:200]}")
     res.nontrivial = st_["n_add"] >= 1
     res.sample = dict(source=m._verif_source, residual_adds=st_["n_residual"])
     return res
